@@ -1178,6 +1178,22 @@ def stage_alias(ctx):
             ctx.sample(dict(alias_config=p, violations=[b[0] for b in bad]))
 
 
+# source tie: make_coords / data_grid / make_subset_data of core/metadata.py as written now
+def _src_items():
+    from harness.lib import pygrid
+    f = "holopy/core/metadata.py"
+    return [dict(file=f, qualname="make_coords", name="make_coords_src", fn=pygrid.make_coords),
+            dict(file=f, qualname="data_grid", name="data_grid_src", fn=pygrid.data_grid),
+            dict(file=f, qualname="make_subset_data", name="subset_src", fn=pygrid.make_subset_data)]
+
+
+def stage_srctie(ctx):
+    from harness.lib import srctie
+    ok = srctie.run(ctx, "C07", "From Coq Require Import Permutation Lia.\nFrom HV Require Import C07.Model C07.Lemmas C07.Props.\n",
+                    _src_items())
+    ctx.count("srctie:%s" % ("ok" if ok else "broken"))
+
+
 def run(ctx):
     ctx.rule = ("layouts: shapes 1..9 x 1..9 (15% 1xN, 15% Nx1), 7 dyadic spacings (anisotropic 70%), z offset, "
                 "shifted origins, volumes nz<=3; detectors: grid / shifted grid / volume / explicit points (shuffled, "
@@ -1231,7 +1247,17 @@ def run(ctx):
         "oracle: np.exp phase factor and to_vector normalisation (values handed to the model)",
         "xarray stack/unstack/isel/copy: modelled (product3 / subset), correspondence sampled",
         "harness mock theory (subclass of the public ScatteringTheory) used to observe positions exactly"]
+    ctx.trusted.append("source reader harness/lib/pygrid.py (an axis read as its generic element over np.arange's index; python floats / "
+                       "ints read as reals; call arguments compared as text) for the source tie")
+    ctx.clauses_proved.append(
+        "source tie: make_coords of core/metadata.py, read from the current source text on every run, builds exactly the model's axes "
+        "from arr.shape = (nz, nx, ny) for every shape / spacing / height; data_grid's dims list, its np.expand_dims axis and the "
+        "shape indices make_coords uses agree (two cooperating sites); pixel (i,j) = (i sx, j sy, z), grid size and grid = points "
+        "restated for the source; make_subset_data draws from tot_pix = len(x) len(y) without replacement and takes the pixels "
+        "from the x-major stacked image [make_coords_src_is_model, dims_match_shape_indices, src_make_coords_pixel, "
+        "src_grid_size, src_grid_eq_points, subset_src_is_model]")
     guarded(ctx, "prove", ctx.prove)
+    guarded(ctx, "source-tie", stage_srctie, ctx)
     boot.boot()
     guarded(ctx, "coords", stage_coords, ctx)
     guarded(ctx, "calc", stage_calc, ctx)
